@@ -374,6 +374,13 @@ def r6_shared_walker(ctx):
         yield o
 
 
+def r9_shared_error_totals(ctx):
+    """"the verdict is false" for a segment-level fault rests on the error totals alone: C05.R14 (shared)"""
+    from . import c05
+    for o in c05.r14_error_totals(ctx):
+        yield o
+
+
 def r8_no_state_between_documents(ctx):
     """a fault is detected whatever was validated before in the same process: C15.R9 / C18.R2 (shared)"""
     from . import c15
@@ -397,6 +404,7 @@ RULES = [
     Rule('C03.R4', 'message/code agreement with the X12 code meanings', r4_codes, floor=15),
     Rule('C03.R5', 'shared with C15.R3/R6: length atoms measure the right string with the right code; delegated checks always run', r5_shared_element_checks, floor=19),
     Rule('C03.R6', 'shared with C02.R5: walker counting/ordering atoms (pending mandatory nodes are reported, limits, positions)', r6_shared_walker, floor=10),
+    Rule('C03.R9', 'shared with C05.R14: error totals are sums over the whole error tree', r9_shared_error_totals, floor=3),
     Rule('C03.R8', 'shared with C18.R2: the validating modules keep no module/class-level state and cache nothing across calls', r8_no_state_between_documents, floor=8),
     Rule('C03.R7', 'shared with C14.R3/R4: syntax-note semantics and routing', r7_shared_syntax, floor=8),
 ]
